@@ -86,6 +86,12 @@ impl SrcAxis {
         let dmax = src_user_to_design(&rows, c.max);
         SrcAxis { rows, dmin, ddef, dmax, min: c.min, max: c.max }
     }
+    /// the user value of a design value: inverse of the (monotone) rows; on a flat run the first user value
+    fn design_to_user(&self, d: f64) -> f64 {
+        let mut r: Vec<(f64, f64)> = self.rows.iter().map(|p| (p.1, p.0)).collect();
+        r.sort_by(|a, b| a.partial_cmp(b).unwrap());
+        src_user_to_design(&r, d)
+    }
     fn norm(&self, u: f64) -> f64 {
         let u = u.clamp(self.min, self.max);
         src_design_norm(self.dmin, self.ddef, self.dmax, src_user_to_design(&self.rows, u))
@@ -137,6 +143,7 @@ struct Tally {
     fonts: usize,
     fonts_err: usize,
     instances: usize,
+    instances_omitted: usize,
     skrifa_points: usize,
     viol: std::collections::BTreeMap<String, usize>,
 }
@@ -614,16 +621,24 @@ fn glyphs_for(shift: f64) -> Vec<GlyphSrc> {
 
 struct FontCase {
     axes: Vec<AxCase>,
-    /// per instance, per axis: design coordinate
-    instances: Vec<Vec<f64>>,
+    /// per instance, per axis: design coordinate; None = the instance's <location> has no
+    /// <dimension> for this axis (its coordinate is then the axis default)
+    instances: Vec<Vec<Option<f64>>>,
 }
 
-fn gen_instances(rng: &mut Rng, axes: &[AxCase]) -> Vec<Vec<f64>> {
-    let ni = rng.below(4) as usize;
+fn gen_instances(rng: &mut Rng, axes: &[AxCase]) -> Vec<Vec<Option<f64>>> {
+    let ni = rng.below(5) as usize;
     let mut instances = Vec::new();
     for _ in 0..ni {
         let mut loc = Vec::new();
-        for c in axes {
+        // a third of the instances leave axes out (each axis with probability 1/2, at least one)
+        let partial = rng.chance(1, 3);
+        let forced = rng.below(axes.len() as u64) as usize;
+        for (ai, c) in axes.iter().enumerate() {
+            if partial && (ai == forced || rng.chance(1, 2)) {
+                loc.push(None);
+                continue;
+            }
             let s = SrcAxis::of(c);
             let (lo, hi) = (s.dmin.min(s.dmax), s.dmin.max(s.dmax));
             let d = match rng.below(5) {
@@ -636,11 +651,15 @@ fn gen_instances(rng: &mut Rng, axes: &[AxCase]) -> Vec<Vec<f64>> {
                 }
                 _ => lo + (hi - lo) * (rng.below(17) as f64 / 16.0),
             };
-            loc.push((d as f32) as f64);
+            loc.push(Some((d as f32) as f64));
         }
         instances.push(loc);
     }
     instances
+}
+
+fn full(v: &[f64]) -> Vec<Option<f64>> {
+    v.iter().map(|x| Some(*x)).collect()
 }
 
 fn gen_font(rng: &mut Rng) -> FontCase {
@@ -663,18 +682,26 @@ fn corpus() -> Vec<FontCase> {
     let ax = |kind, min, def, max, rows: &[(f64, f64)], k| AxCase { kind, min, def, max, rows: rows.to_vec(), default_idx: k };
     vec![
         // map rows beyond the axis bounds
-        FontCase { axes: vec![ax("rows-outside-bounds", 300.0, 400.0, 700.0, &[(100.0, 20.0), (300.0, 60.0), (400.0, 80.0), (700.0, 150.0), (900.0, 200.0)], 2)], instances: vec![vec![60.0], vec![150.0]] },
+        FontCase { axes: vec![ax("rows-outside-bounds", 300.0, 400.0, 700.0, &[(100.0, 20.0), (300.0, 60.0), (400.0, 80.0), (700.0, 150.0), (900.0, 200.0)], 2)], instances: vec![full(&[60.0]), full(&[150.0])] },
         // design flat from the axis minimum through the default
-        FontCase { axes: vec![ax("flat-end", 100.0, 400.0, 900.0, &[(100.0, 50.0), (400.0, 50.0), (900.0, 100.0)], 1)], instances: vec![vec![50.0]] },
+        FontCase { axes: vec![ax("flat-end", 100.0, 400.0, 900.0, &[(100.0, 50.0), (400.0, 50.0), (900.0, 100.0)], 1)], instances: vec![full(&[50.0])] },
         // design flat from the default to the axis maximum
-        FontCase { axes: vec![ax("flat-end", 100.0, 400.0, 900.0, &[(100.0, 10.0), (400.0, 50.0), (900.0, 50.0)], 1)], instances: vec![vec![10.0]] },
+        FontCase { axes: vec![ax("flat-end", 100.0, 400.0, 900.0, &[(100.0, 10.0), (400.0, 50.0), (900.0, 50.0)], 1)], instances: vec![full(&[10.0])] },
         // many-to-one in the middle, default inside the flat run (ufo2ft #978 shape)
-        FontCase { axes: vec![ax("flat", 100.0, 500.0, 900.0, &[(100.0, 10.0), (400.0, 50.0), (500.0, 50.0), (700.0, 80.0), (900.0, 100.0)], 2)], instances: vec![vec![50.0], vec![100.0]] },
+        FontCase { axes: vec![ax("flat", 100.0, 500.0, 900.0, &[(100.0, 10.0), (400.0, 50.0), (500.0, 50.0), (700.0, 80.0), (900.0, 100.0)], 2)], instances: vec![full(&[50.0]), full(&[100.0])] },
         // default at either end, non-integer values, rows not in order
-        FontCase { axes: vec![ax("general", 62.5, 62.5, 100.0, &[(100.0, 100.0), (87.5, 89.25), (62.5, 70.0), (75.0, 79.5)], 2), ax("general", -12.0, 0.0, 0.0, &[(-12.0, -30.5), (-6.0, -10.25), (0.0, 0.0)], 2)], instances: vec![vec![70.0, -30.5]] },
+        FontCase { axes: vec![ax("general", 62.5, 62.5, 100.0, &[(100.0, 100.0), (87.5, 89.25), (62.5, 70.0), (75.0, 79.5)], 2), ax("general", -12.0, 0.0, 0.0, &[(-12.0, -30.5), (-6.0, -10.25), (0.0, 0.0)], 2)], instances: vec![full(&[70.0, -30.5])] },
         // one bent stop next to a stop that lies exactly on the diagonal (seeded change C08-1)
-        FontCase { axes: vec![ax("mostly-identity", 400.0, 400.0, 700.0, &[(400.0, 400.0), (500.0, 530.0), (600.0, 600.0), (700.0, 700.0)], 0)], instances: vec![vec![600.0]] },
+        FontCase { axes: vec![ax("mostly-identity", 400.0, 400.0, 700.0, &[(400.0, 400.0), (500.0, 530.0), (600.0, 600.0), (700.0, 700.0)], 0)], instances: vec![full(&[600.0])] },
         FontCase { axes: vec![ax("mostly-identity", 400.0, 700.0, 700.0, &[(400.0, 400.0), (500.0, 500.0), (600.0, 630.0), (700.0, 700.0)], 3)], instances: vec![] },
+        // instances that leave axes out (seeded change C08c): the coordinate is the axis default; defaults at
+        // min / inside / max, none of them 0, axes with and without <map>
+        FontCase {
+            axes: vec![ax("general", 100.0, 400.0, 900.0, &[(100.0, 20.0), (400.0, 80.0), (900.0, 200.0)], 1), ax("unmapped", 75.0, 75.0, 125.0, &[], 0), ax("general", 8.0, 144.0, 144.0, &[(8.0, 0.0), (14.0, 30.5), (144.0, 100.0)], 2)],
+            instances: vec![vec![Some(200.0), None, None], vec![None, Some(125.0), None], vec![None, None, Some(30.5)], vec![None, None, None], full(&[20.0, 100.0, 0.0])],
+        },
+        FontCase { axes: vec![ax("unmapped", 100.0, 100.0, 1000.0, &[], 0), ax("unmapped", 100.0, 1000.0, 1000.0, &[], 0)], instances: vec![vec![Some(1000.0), None], vec![None, Some(100.0)]] },
+        FontCase { axes: vec![ax("flat", 100.0, 500.0, 900.0, &[(100.0, 10.0), (400.0, 50.0), (500.0, 50.0), (900.0, 100.0)], 2)], instances: vec![vec![None], full(&[100.0])] },
         // rows closer than one F2Dot14 step
         FontCase { axes: vec![ax("close", 100.0, 400.0, 900.0, &[(100.0, 10.0), (400.0, 50.0), (400.0078125, 60.0), (900.0, 100.0)], 1)], instances: vec![] },
     ]
@@ -702,7 +729,15 @@ fn designspace_of(fc: &FontCase, family: &str) -> Design {
         d.masters.push(Master { name: format!("M{}", i + 1), style: format!("S{}", i + 1), location: loc, glyphs: glyphs_for(40.0 + 10.0 * i as f64), ..Default::default() });
     }
     for (k, inst) in fc.instances.iter().enumerate() {
-        d.instances.push(InstanceSrc { family: d.family.clone(), style: format!("I{k}"), postscript: None, location: inst.iter().enumerate().map(|(i, v)| (NAMES[i].to_string(), *v)).collect() });
+        d.instances.push(InstanceSrc { family: d.family.clone(), style: format!("I{k}"), postscript: None, location: {
+            let mut l: Vec<(String, f64)> = inst.iter().enumerate().filter_map(|(i, v)| v.map(|v| (NAMES[i].to_string(), v))).collect();
+            if l.is_empty() {
+                // norad rejects an empty <location>; a dimension for an axis the document does not define is
+                // skipped by the front end, which leaves the instance without any axis
+                l.push(("No Such Axis".to_string(), 1.0));
+            }
+            l
+        } });
     }
     d
 }
@@ -752,7 +787,9 @@ fn check_font(t: &mut Tally, id: &mut usize, stream: &str, label: String, fc: &F
         Outcome::Font(b) => b,
         Outcome::Error(e) => {
             t.fonts_err += 1;
-            *t.by_kind.entry(format!("{stream}:error:{}", e.chars().take(48).collect::<String>())).or_insert(0) += 1;
+            // the message names the scratch directory; keep only what follows the path
+            let tail = e.rsplit("': ").next().unwrap_or(&e).to_string();
+            *t.by_kind.entry(format!("{stream}:error:{}", tail.chars().take(60).collect::<String>())).or_insert(0) += 1;
             if all_wf {
                 viol(t, "compile-error-on-wellformed-axes", format!("fontc rejects a source with well-formed axis maps: {e}"), src_json);
             }
@@ -858,17 +895,51 @@ fn check_font(t: &mut Tally, id: &mut usize, stream: &str, label: String, fc: &F
                 let a = &fax[i];
                 t.instances += 1;
                 let s = &srcs[i];
-                let in_src_range = inst[i] >= s.dmin.min(s.dmax) && inst[i] <= s.dmin.max(s.dmax);
-                if in_src_range && well_formed(c) && !(raw >= a.min_value().to_bits() && raw <= a.max_value().to_bits()) {
-                    viol(
-                        t,
-                        "instance-outside-axis-range",
-                        format!("instance {k} axis {}: coordinate {} outside fvar range [{}, {}] although its design location {} lies in the axis' design range", tags[i], raw as f64 / 65536.0, a.min_value(), a.max_value(), inst[i]),
-                        src_json.clone(),
-                    );
+                let got = raw as f64 / 65536.0;
+                let inst_json = || json!({"instance_index": k, "instance_location": inst, "axis": tags[i], "axis_definition": case_json(c), "fvar_coordinate": got, "fvar_axis": [a.min_value().to_f64(), a.default_value().to_f64(), a.max_value().to_f64()], "source": src_json});
+                match inst[i] {
+                    None => {
+                        // the instance does not mention this axis: the coordinate is the axis default
+                        t.instances_omitted += 1;
+                        if (got - c.def).abs() > 0.5 / 65536.0 + 1e-12 {
+                            viol(
+                                t,
+                                "instance-omitted-axis-not-at-default",
+                                format!("instance {k} gives no location for axis {}: fvar coordinate is {got}, the axis default is {} (axis range [{}, {}])", tags[i], c.def, c.min, c.max),
+                                inst_json(),
+                            );
+                        }
+                        if !(raw >= a.min_value().to_bits() && raw <= a.max_value().to_bits()) {
+                            viol(t, "instance-outside-axis-range", format!("instance {k} axis {} (not given in the source): coordinate {got} outside fvar range [{}, {}]", tags[i], a.min_value(), a.max_value()), inst_json());
+                        }
+                        inst_terms.push(format!("match {} with Some a => inst_agrees a None {} | None => false end", coq_axis(c), coq_z(raw as i64)));
+                    }
+                    Some(dv) => {
+                        let in_src_range = dv >= s.dmin.min(s.dmax) && dv <= s.dmin.max(s.dmax);
+                        if in_src_range && well_formed(c) {
+                            if !(raw >= a.min_value().to_bits() && raw <= a.max_value().to_bits()) {
+                                viol(
+                                    t,
+                                    "instance-outside-axis-range",
+                                    format!("instance {k} axis {}: coordinate {got} outside fvar range [{}, {}] although its design location {dv} lies in the axis' design range", tags[i], a.min_value(), a.max_value()),
+                                    inst_json(),
+                                );
+                            }
+                            // ... and it is the user value the source's own mapping gives for that design value
+                            let want = s.design_to_user(dv);
+                            if (got - want).abs() > 0.5 / 65536.0 + 1e-7 * (1.0 + want.abs()) {
+                                viol(
+                                    t,
+                                    "instance-coordinate-differs-from-source",
+                                    format!("instance {k} axis {}: fvar coordinate {got}, but design {dv} is user {want} in the source's mapping", tags[i]),
+                                    inst_json(),
+                                );
+                            }
+                        }
+                        let conv = if glyphs_instances { format!("(norm_to_user (aconv a) (design_to_norm (aconv a) {}))", coq_q(dv)) } else { format!("(design_to_user (aconv a) {})", coq_q(dv)) };
+                        inst_terms.push(format!("match {} with Some a => near16u {} {} | None => false end", coq_axis(c), conv, coq_z(raw as i64)));
+                    }
                 }
-                let conv = if glyphs_instances { format!("(norm_to_user (aconv a) (design_to_norm (aconv a) {}))", coq_q(inst[i])) } else { format!("(design_to_user (aconv a) {})", coq_q(inst[i])) };
-                inst_terms.push(format!("match {} with Some a => near16u {} {} | None => false end", coq_axis(c), conv, coq_z(raw as i64)));
             }
         }
     }
@@ -944,7 +1015,7 @@ fn stream_c(rng: &mut Rng, n: usize, id: &mut usize, t: &mut Tally) {
         let path = dir.path().join("C08.glyphs");
         std::fs::write(&path, &text).unwrap();
         let out = compile_path(&path, None, None);
-        let fc = FontCase { axes: vec![c], instances: insts.iter().map(|d| vec![*d]).collect() };
+        let fc = FontCase { axes: vec![c], instances: insts.iter().map(|d| vec![Some(*d)]).collect() };
         let src_json = json!({"glyphs_source": text, "axes": fc.axes.iter().map(case_json).collect::<Vec<_>>(), "instances": fc.instances});
         check_font(t, id, "C", format!("glyphs{done}"), &fc, &["wght"], out, src_json, true);
         done += 1;
@@ -973,6 +1044,6 @@ fn main() {
         "maps_with_duplicate_from_after_quantisation": t.dup_from,
         "nonmonotone_sources_accepted_without_error": t.nonmono_accepted, "failed_subpredicates_on_invalid_sources_not_reported": t.invalid_malformed_output,
         "fonts_compiled": t.fonts, "fonts_rejected": t.fonts_err,
-        "instance_coordinates": t.instances, "violations_by_key": t.viol, "extra_evaluations": t.points + t.skrifa_points
+        "instance_coordinates": t.instances, "instance_coordinates_for_omitted_axes": t.instances_omitted, "violations_by_key": t.viol, "extra_evaluations": t.points + t.skrifa_points
     }));
 }
